@@ -941,10 +941,11 @@ class Side:
 
 
 class Case:
-    def __init__(self, idx, spec, gen):
+    def __init__(self, idx, spec, gen, compiler=None):
         self.idx = idx
         self.spec = spec
         self.gen = gen
+        self.compiler = compiler      # an already used compiler instance (histories); None = a fresh one
         self.problem = gen.problem
         self.result = None
         self.raised = None
@@ -963,7 +964,8 @@ class Case:
             self.skip = "orig:" + str(e)
             return self
         try:
-            self.result = self.spec["make"]().compile(self.problem)
+            comp = self.compiler if self.compiler is not None else self.spec["make"]()
+            self.result = comp.compile(self.problem)
         except Exception as e:  # noqa
             self.raised = e
             return self
@@ -1135,6 +1137,128 @@ def shape_tags(problem):
     return sorted(tags)
 
 
+# ---------------------------------------------------------------------------------------------- histories of one compiler instance
+def quantifier_history_problem(kind):
+    """Forall/Exists over a type that grows between the two compilations"""
+    from collections import OrderedDict
+    from unified_planning.environment import Environment
+    from unified_planning.model import Fluent, Object, Problem, InstantaneousAction, Variable
+    env = Environment()
+    tm, em = env.type_manager, env.expression_manager
+    T = tm.UserType("Loc")
+    p = Problem("hist-" + kind, env)
+    p.add_object(Object("l1", T, env))
+    visited = Fluent("visited", tm.BoolType(), OrderedDict([("x", T)]), env)
+    done = Fluent("done", tm.BoolType(), environment=env)
+    p.add_fluent(visited, default_initial_value=False)
+    p.add_fluent(done, default_initial_value=False)
+    visit = InstantaneousAction("visit", OrderedDict([("x", T)]), env)
+    visit.add_effect(visited(visit.parameter("x")), True)
+    p.add_action(visit)
+    v = Variable("v", T, env)
+    if kind == "forall-goal":
+        p.add_goal(em.Forall(visited(v), v))
+    elif kind == "forall-precondition":
+        fin = InstantaneousAction("fin", _env=env)
+        fin.add_precondition(em.Forall(visited(v), v))
+        fin.add_effect(done, True)
+        p.add_action(fin)
+        p.add_goal(done)
+    elif kind == "exists-negated":
+        fin = InstantaneousAction("fin", _env=env)
+        fin.add_precondition(em.Not(em.Exists(em.Not(visited(v)), v)))
+        fin.add_effect(done, True)
+        p.add_action(fin)
+        p.add_goal(done)
+    else:       # forall effect
+        clr = InstantaneousAction("all", _env=env)
+        clr.add_effect(visited(v), True, forall=(v,))
+        p.add_action(clr)
+        p.add_goal(em.Forall(visited(v), v))
+
+    def edit():
+        p.add_object(Object("l2", T, env))
+    g = HandGen(p, "history:quantifier-%s:add-object" % kind)
+    g.edit = edit
+    return g
+
+
+def edit_generated(gen, rng):
+    """edit a GenProblem IN PLACE (same Problem object): returns the name of the edit"""
+    from collections import OrderedDict
+    from unified_planning.model import Object, InstantaneousAction
+    p = gen.problem
+    kind = rng.choice(["add-object", "add-object", "add-action", "change-initial-value", "add-goal"])
+    if kind == "add-object":
+        t = rng.choice([gen.T0, gen.T1])
+        nm = rng.choice([x for x in ["zz", "z_1", "a_b_c", "q0", "new_0"] if not p.has_name(x)])
+        p.add_object(Object(nm, t, gen.env))
+    elif kind == "add-action":
+        a = InstantaneousAction(rng.choice([x for x in ["extra", "extra_0", "act9"] if not p.has_name(x)]), _env=gen.env)
+        for _ in range(6):
+            try:
+                gen.add_random_effect(a, [])
+                break
+            except Exception:  # noqa
+                pass
+        if not a.effects:
+            a.add_effect(gen.em.FluentExp(gen.fluents[0]), True)
+        if rng.random() < 0.5:
+            a.add_precondition(gen.gen_bool(1, [], ()))
+        p.add_action(a)
+        gen.actions.append(a)
+    elif kind == "change-initial-value":
+        f, args = rng.choice(gen.ground_fluents())
+        p.set_initial_value(gen.em.FluentExp(f, tuple(gen.em.ObjectExp(o) for o in args)), gen.rand_const(f.type))
+    else:
+        p.add_goal(gen.gen_bool(1, [], ()))
+    return kind
+
+
+def history_cases(rng, spec, n, cases, max_insts, stats):
+    """one compiler INSTANCE used twice: compile, edit the same Problem object, compile again (the case is the second
+    compilation, judged against the edited problem); or two different problems in a row (the case is the second)"""
+    comp_probe = spec["make"]()
+    comp_probe = comp_probe._compilers[0] if spec["pipeline"] else comp_probe
+    hist = []
+    for kind in ("forall-goal", "forall-precondition", "exists-negated", "forall-effect"):
+        hist.append(("edit", quantifier_history_problem(kind)))
+    for i in range(n):
+        gen = generate(rng, spec)
+        if gen is None:
+            continue
+        hist.append(("edit", gen) if i % 3 != 2 else ("two-problems", gen))
+    for mode, gen in hist:
+        comp = spec["make"]()
+        try:
+            if not comp_probe.supports(gen.problem.kind):
+                continue
+            if mode == "edit":
+                try:
+                    comp.compile(gen.problem)
+                except Exception:  # noqa  (reported by the ordinary cases / C08)
+                    pass
+                if hasattr(gen, "edit"):
+                    gen.edit()
+                else:
+                    gen.label = "history:generated:" + edit_generated(gen, rng)
+            else:
+                other = generate(rng, spec)
+                if other is not None:
+                    try:
+                        comp.compile(other.problem)
+                    except Exception:  # noqa
+                        pass
+                gen.label = "history:two-problems"
+            if not comp_probe.supports(gen.problem.kind):
+                continue
+        except Exception as e:  # noqa  (an edit that the API rejects: skip the history)
+            stats["history_build_errors"] = stats.get("history_build_errors", 0) + 1
+            continue
+        stats["histories"] = stats.get("histories", 0) + 1
+        cases.append(Case(len(cases), spec, gen, compiler=comp).run(max(max_insts, 20)))
+
+
 # ---------------------------------------------------------------------------------------------- case construction shared by C06/C07/C08
 def build_cases(ctx, per_compiler, max_insts, adversarial=0.0, only=None):
     """corner corpus + `per_compiler` generated problems for every compiler spec; each compiled by the real compiler."""
@@ -1181,6 +1305,7 @@ def build_cases(ctx, per_compiler, max_insts, adversarial=0.0, only=None):
             stats["generated"] += 1
             stats["family"] = stats.get("family", 0) + 1
             cases.append(Case(len(cases), spec, g).run(max(max_insts, 40)))
+        history_cases(rng, spec, max(3, per_compiler // 4), cases, max_insts, stats)
         for _ in range(per_compiler):
             gen = generate(rng, spec, adversarial_names=rng.random() < adversarial)
             if gen is None:
